@@ -3,6 +3,18 @@
 import json, subprocess
 
 CLAIMED = {
+  "C17": ("proptest edit scripts over harvested programs (whitespace/separator substitution, identifier lengthening across width thresholds, redundant blocks, conventional comments, string escapes); oracle: format→parse→format fixpoint, AST equality after normalize_blocks, bytecode identity, independent comment scanner",
+          "Every run formats ~3*10^4 parseable sources derived from the 1189 harvested programs and checks that the output parses, is a fixpoint, denotes the same program (normalised AST; identical bytecode when it compiles) and keeps the comment sequence. Exploration only. Nine recorded formatter findings are excluded by construction or attributed by an explicit rule (see known_findings.json and DESIGN.md §5).",
+          "Trusts the independent comment scanner (follows the parser's comment definition) and simplify::normalize_blocks as the definition of 'no-op block'. Trivia placed unconventionally is judged only differentially (a failing case is tolerated iff it passes without those trivia edits).",
+          "DESIGN.md §4 C17"),
+  "C19": ("proptest operation histories over versioned dictionaries (model-based); adversarial key pools brute-forced per run (full FNV-1a-32 collisions incl. triples, shared low 5..25 bits, Str vs binary spellings); oracle: host map per version, all versions re-read at the end",
+          "Each history (5-40 operations on any earlier version) is compiled into one program whose observations (get/has?/count/entries/keys/values, plus a full re-read of every version) are compared with a host BTreeMap per version. Exploration only.",
+          "Trusts the host map model; entry order is compared as a multiset; values are non-nil small integers.",
+          "DESIGN.md §4 C19"),
+  "C20": ("proptest expression trees over the num record; oracle: exact host arithmetic in Q and Q(sqrt n) compared in canonical form and kind",
+          "Each run evaluates ~3*10^5 generated expressions (depth <= 3; integers up to 10^40, rationals written reduced/unreduced/as tuples, surds, nil) through the compiled module and compares every value with exact host arithmetic, including the module's kind rules and nil propagation. Exploration only.",
+          "Trusts the host exact-arithmetic model. sqrt arguments are bounded (the module uses trial division). One recorded finding (nil into integer-tail dispatch) is excluded by construction and re-witnessed each run.",
+          "DESIGN.md §4 C20"),
   "C07": ("corpus + proptest-mutated programs; oracle: all-paths abstract interpreter over (operand height, defined-locals interval) per function + table cross-reference check, in three packaging forms; interpreter validated dynamically at quantum 1",
           "Every function of every harvested/std/mutated program that compiles is verified on all control-flow paths (jump range, no underflow, equal height at joins, exit height 1, loads below the all-paths minimum of defined locals, TailCall operand height, index ranges, table cross references) as compiled, after tree_shake, and inside Environment::get_program() after merging behind 0-3 other programs. All paths of each function are covered; the set of programs is sampled.",
           "Trusts the verifier's instruction model, which is cross-checked against the real executor on ~10^6 executed instructions per run (self-check failure => exit 2). One recorded finding (non-tail `^`) is attributed only by an AST tail-position analysis and only for the TailCall-height rule.",
